@@ -16,6 +16,7 @@ LEVEL_NOTE = ('Trusted: Cython-subset front-end, interpreter, our transcription 
               'real algebra. x**alpha is exp(alpha log x). Not decided: ulp-level accuracy, overflow thresholds.')
 EXPLANATION = ('R07.1 modulus * J_ref == 1 on the main branch, 7 models; R07.2 legacy compliance == J_ref under compliance = 1/mu, Voigt offset = 1/scale; R07.3 guard returns == limits (rational models), '
                'Maxwell-family guards agree; R07.4 Re J >= 1/mu and Im J <= 0 from the form of J_ref; R07.5 access paths, no writes to self in _implementation, exhaustive find_rheology.')
+EXPLANATION += ' R07.7 the array twin: every interpreted call repeated with array arguments (mutable cells) returns the scalar values element for element and leaves the arguments intact.'
 
 MODELS = ('Elastic', 'Newton', 'Maxwell', 'Voigt', 'Burgers', 'Andrade', 'SundbergCooper')
 NARGS = {'Elastic': 0, 'Newton': 0, 'Maxwell': 0, 'Voigt': 2, 'Burgers': 2, 'Andrade': 2, 'SundbergCooper': 4}
